@@ -44,22 +44,22 @@ type Ret struct {
 
 // Exec holds one analysis run over one program function.
 type Exec struct {
-	TU      *cfront.TU
-	Mode    Mode
-	Opaque  map[string]bool // helpers that are not inlined (Paths mode keeps tables small)
-	nextSym lin.Atom
-	SymOrg  map[lin.Atom]string
-	regions map[string]*Region
-	Access  map[string]*Access
+	TU       *cfront.TU
+	Mode     Mode
+	Opaque   map[string]bool // helpers that are not inlined (Paths mode keeps tables small)
+	nextSym  lin.Atom
+	SymOrg   map[lin.Atom]string
+	regions  map[string]*Region
+	Access   map[string]*Access
 	Problems []string // constructs the interpreter could not model (each is a failed obligation)
-	Returns []Ret
-	Events  []Event // every event in visit order (Merge mode: global log)
-	Loops   []LoopInfo
-	depth   int
-	stack   []string
-	steps   int
+	Returns  []Ret
+	Events   []Event // every event in visit order (Merge mode: global log)
+	Loops    []LoopInfo
+	depth    int
+	stack    []string
+	steps    int
 	MaxSteps int
-	curFn   string
+	curFn    string
 	keepCond *cfront.Node // conditional operator whose alternatives are kept apart (operand of a return)
 }
 
@@ -1096,7 +1096,7 @@ func (x *Exec) atomsOf(v Val, e *cfront.Node) []Atom {
 		if c.A.K == VPtr && c.A.Reg.Kind == RPkt {
 			l = "pkt+" + formKey(c.A.L)
 		}
-		return []Atom{{Op: c.Op, L: l, R: r, LC: lc, RC: rc, Holds: holds, Node: pos}}
+		return []Atom{canonAtom(Atom{Op: c.Op, L: l, R: r, LC: lc, RC: rc, Holds: holds, Node: pos})}
 	}
 	if v.Cond != nil {
 		return conv(v.Cond, true)
@@ -1146,4 +1146,28 @@ func (x *Exec) RunFunc(fn *cfront.Node) {
 	}
 	x.stack = []string{fn.Name}
 	x.execStmt(body, []*State{st})
+}
+
+// canonAtom orders the operands of a comparison canonically, so that `a == b` and `b == a` (and `K < x`, `x > K`)
+// are one atom: a constant goes to the right, a packet field to the left of a map/stack value.
+func canonAtom(a Atom) Atom {
+	swap := false
+	switch {
+	case a.LC != nil && a.RC == nil:
+		swap = true
+	case a.LC == nil && a.RC == nil && !strings.HasPrefix(a.L, "pkt") && strings.HasPrefix(a.R, "pkt"):
+		swap = true
+	}
+	if !swap {
+		return a
+	}
+	mirror := map[string]string{"==": "==", "!=": "!=", "<": ">", ">": "<", "<=": ">=", ">=": "<="}
+	m, ok := mirror[a.Op]
+	if !ok {
+		return a
+	}
+	a.Op = m
+	a.L, a.R = a.R, a.L
+	a.LC, a.RC = a.RC, a.LC
+	return a
 }
